@@ -55,8 +55,11 @@ def run_one(d, repo, env):
             res[c] = (rr.returncode, len(viol), what[0][:160] if what else "", round(time.time() - t0, 1))
     finally:
         sh(f"git -C {repo} checkout -- . && git -C {repo} clean -fdq -- tests src")
-    print(d, {k: v[:2] for k, v in res.items()}, flush=True)
-    return (d, props, meta.get("summary", ""), res)
+    print(d, {k: v[:2] for k, v in res.items()}, "(neutralised by a fix: exit 0 expected)" if meta.get("neutralised_by_fix") else "", flush=True)
+    summ = meta.get("summary", "")
+    if meta.get("neutralised_by_fix"):
+        summ = "[NEUTRALISED by fix " + meta["neutralised_by_fix"]["commit"] + ": no longer breaks the property, exit 0 expected] " + summ
+    return (d, props, summ, res)
 
 if jobs <= 0:
     assert sh("git -C /repo status --porcelain").stdout.strip() == "", "/repo has uncommitted changes"
